@@ -92,6 +92,22 @@ ITEMS = [
     ("benign-align-equivalent-form", TR, {"C15": "C15"}, "(P - S % P) % P", [(_ALIGN_NEW, "                remainder = (self.piece_length - filesize % self.piece_length) % self.piece_length\n")], {"expect": "clean"}),
     ("benign-rename-locals", HS, {"C02": "C02", "C10": "C10", "C03": "C03"}, "FileHasher locals renamed", [("        plength = self.piece_length\n        blocks = []\n        piece = sha1()  # nosec\n        total = 0\n        block = bytearray(BLOCK_SIZE)\n        for _ in range(self.amount):\n            size = self.current.readinto(block)\n            self.progbar.update(size)\n            if not size:\n                self.end = True\n                break\n            total += size\n            plength -= size\n            blocks.append(sha256(block[:size]).digest())\n            if self.hybrid:\n                piece.update(block[:size])", "        plength = self.piece_length\n        blocks = []\n        piece = sha1()  # nosec\n        total = 0\n        chunk = bytearray(BLOCK_SIZE)\n        for _ in range(self.amount):\n            got = self.current.readinto(chunk)\n            self.progbar.update(got)\n            if not got:\n                self.end = True\n                break\n            total += got\n            plength -= got\n            blocks.append(sha256(chunk[:got]).digest())\n            if self.hybrid:\n                piece.update(chunk[:got])")], {"expect": "clean"}),
     ("benign-v1-logging", HS, {"C01": "C01"}, "extra logging in the v1 hasher", [("            piece = bytearray(self.piece_length)\n            size = self.current.readinto(piece)", "            piece = bytearray(self.piece_length)\n            logger.debug(\"reading piece\")\n            size = self.current.readinto(piece)")], {"expect": "clean"}),
+    # ---------------- post-assembly integrity, traversal entry, helper purity (rules added after the second seeding round)
+    ("sortmeta-drops-trailing-pad", TR, {"C03": "C03.5"}, "sort_meta deletes a trailing padding entry from info.files",
+     [("        meta = self.meta\n        meta[\"info\"] = dict(sorted(list(meta[\"info\"].items())))\n",
+       "        meta = self.meta\n        files = meta[\"info\"].get(\"files\")\n        if files and files[-1].get(\"attr\") == \"p\":\n            files.pop()\n        meta[\"info\"] = dict(sorted(list(meta[\"info\"].items())))\n")]),
+    ("sortmeta-filters-tree", TR, {"C02": "C02.5"}, "sort_meta rebuilds the file tree without its empty-file leaves",
+     [("        meta = self.meta\n        meta[\"info\"] = dict(sorted(list(meta[\"info\"].items())))\n",
+       "        meta = self.meta\n        if \"file tree\" in meta[\"info\"]:\n            meta[\"info\"][\"file tree\"] = {k: v for k, v in meta[\"info\"][\"file tree\"].items() if v.get(\"\", {}).get(\"length\", 1)}\n        meta[\"info\"] = dict(sorted(list(meta[\"info\"].items())))\n")]),
+    ("sortmeta-inplace-rekey-benign", TR, {"C02": "C02.5", "C03": "C03.5"}, "piece layers re-keyed in place (pop / re-insert in sorted order)",
+     [("            layers = meta[\"piece layers\"]\n            meta[\"piece layers\"] = dict(sorted(list(layers.items())))\n",
+       "            layers = self.piece_layers\n            for root in sorted(layers):\n                layers[root] = layers.pop(root)\n")], {"expect": "clean"}),
+    ("merkle-root-in-place", HS, {"C02": "C02.4", "C10": "C10.2"}, "merkle_root folds the caller's list in place",
+     [("        while len(blocks) > 1:\n            blocks = [\n                sha256(x + y).digest() for x, y in zip(*[iter(blocks)] * 2)\n            ]\n        return blocks[0]",
+       "        while len(blocks) > 1:\n            blocks[:] = [\n                sha256(x + y).digest() for x, y in zip(*[iter(blocks)] * 2)\n            ]\n        return blocks[0]")]),
+    ("hasher-stops-at-piece-count", HS, {"C01": "C01.6", "C15": "C15.3"}, "v1 hasher ends after ceil(total / piece_length) pieces",
+     [("        while True:\n            piece = bytearray(self.piece_length)\n            size = self.current.readinto(piece)",
+       "        self._done = getattr(self, \"_done\", 0) + 1\n        if self._done > -(-self.total // self.piece_length):\n            raise StopIteration\n        while True:\n            piece = bytearray(self.piece_length)\n            size = self.current.readinto(piece)")]),
 ]
 
 
